@@ -209,3 +209,21 @@ _add(PropertySpec(
                  'obligation on the stages.  A bounded native run of both relations accompanies the proof.'),
     assumptions=[A_REAL, A_FRAME, 'check_data_consistency returns a fresh four-column frame (its contract, see C15); determinism of the stages (A-DET)'],
 ))
+
+
+_add(PropertySpec(
+    'C19', 'other',
+    functions=['ampycloud.scaler.shift_and_scale', 'ampycloud.scaler.minmax_scale', 'ampycloud.scaler.minrange2minmax',
+               'ampycloud.scaler.convert_kwargs', 'ampycloud.scaler.apply_scaling'],
+    lemmas=['prop.C19.sas.order', 'prop.C19.sas.inverse', 'prop.C19.mm.range', 'prop.C19.mm.order', 'prop.C19.mm.inverse', 'prop.C19.mm.minrange'],
+    bounded=_bounded('c19'),
+    explanation=('PROVED (P, floats as reals): shift_and_scale, minmax_scale, minrange2minmax, convert_kwargs and apply_scaling are symbolically '
+                 'executed from their real ASTs over arrays of symbolic length (element-wise dialect; NaN-ignoring reductions as ghost values '
+                 'with their defining facts): element-wise formulas for do / undo, NaN entries stay NaN and do not enter the derived shift / '
+                 'interval, the derived interval contains all data and is at least min_range wide, all-NaN passthrough, errors for unknown '
+                 'names / underivable parameters; order preservation, undo(do(x)) = x and the [0,1] image are lemmas over the element-wise '
+                 'formulas.  NOT UNDER CONTRACT: step_scale (concrete-length list arithmetic) -- its clauses (monotone, continuous, '
+                 'invertible) are checked only by the bounded run, which also re-checks the other modes natively.'),
+    assumptions=[A_REAL, 'scale > 0 and span >= 1e-6 as in the property\'s quantifier'],
+    not_decided=['step scaling for all step lists (bounded only)', 'floating-point error of undo(do(x)) (exact only in the reals)'],
+))
